@@ -25,6 +25,11 @@ func getParser(br *bufio.Reader, file string) parser.Parser {
 
 func setDefineInfos(p *parser.Parser) {
 	for _, article := range eval.DefineInfoArticles {
+		// the articles also hold the definitions found in preloaded files
+		if article.P.FileName != p.FileName {
+			continue
+		}
+
 		ctx := article.Ctx
 
 		methodT := article.MethodT
